@@ -322,6 +322,12 @@ func entails(facts []Ineq, goal Ineq) bool {
 		rel[a] = true
 	}
 	used := make([]bool, len(facts))
+	if goal.L.isConst() {
+		// "are the facts contradictory?" — every fact is relevant
+		for i := range used {
+			used[i] = true
+		}
+	}
 	for changed := true; changed; {
 		changed = false
 		for i, f := range facts {
